@@ -13,8 +13,8 @@ import random
 
 ID = "C10"
 DRIVER = "drv_c10"
-LEAN_TARGETS = ["PharmpyProofs.C10.Properties", "drv_c10"]
-PROPERTIES = ["PharmpyProofs/C10/Properties.lean"]
+LEAN_TARGETS = ["PharmpyProofs.C10.Properties", "PharmpyProofs.C10.UnusedProperties", "drv_c10"]
+PROPERTIES = ["PharmpyProofs/C10/Properties.lean", "PharmpyProofs/C10/UnusedProperties.lean"]
 LEAN_SOURCES = ["PharmpyModel/Core/*.lean", "PharmpyModel/C10/*.lean", "PharmpyProofs/C10/*.lean", "Drivers/C10.lean"]
 TIME_LIMIT = {"quick": 900, "thorough": 3000}
 CASE_CPU_LIMIT = 30
@@ -99,8 +99,12 @@ def gen_prog(rng: random.Random, ssa: bool, with_ode: bool):
 
 
 def gen_cases(rng: random.Random, n: int, tier: str):
+    from harness.corr.c10_unused import gen_unused
     out = []
     for _ in range(n):
+        if rng.random() < 0.15:
+            out.append(gen_unused(rng))
+            continue
         r = rng.random()
         ssa = r < 0.3
         with_ode = 0.3 <= r < 0.45
@@ -155,10 +159,14 @@ def corpus_cases():
         {"kind": "prog", "ssa": False, "stmts": [A("A", "P"), A("B", "A + P"), ["ode", {"rates": ["A", "B", "R"], "two": True}],
                                                   A("Y", "A_CENTRAL(t) / B")],
          "rm": [[["A"], 3], [["B"], 3]], "reassign": ["B", "A"], "seed": 4},
-    ]
+    ] + __import__("harness.corr.c10_unused", fromlist=["corpus_unused"]).corpus_unused()
 
 
 def shrink(case):
+    if case.get("kind") == "unused":
+        from harness.corr.c10_unused import shrink_unused
+        yield from shrink_unused(case)
+        return
     st = case["stmts"]
     for i in range(len(st)):
         if len(st) <= 1:
@@ -282,6 +290,9 @@ def rand_env(rng, syms):
 
 
 def run_case(case, drv):
+    if case.get("kind") == "unused":
+        from harness.corr.c10_unused import run_unused
+        return run_unused(case, drv)
     rng = random.Random(case["seed"])
     k, mon, tags = [], [], []
     ss = build(case)
